@@ -54,10 +54,16 @@ CheckGame ==
        IN  fails' = fails
              \cup (IF Want \in {"C08", "both"}
                    THEN (IF S.exact[step] THEN {} ELSE {"C08.ProbExact game=" \o v})
-                        \cup (IF Bisimilar(g, AbstractGame(S.board, v, S.probs)) THEN {}
+                        \cup (IF ~S.raw[step].valid \/ ~WellFormed(g)
+                              THEN {"C08.Bisimilar game=" \o v \o " (the emitted game is not even well-formed)"}
+                              ELSE IF Bisimilar(g, AbstractGame(S.board, v, S.probs)) THEN {}
                               ELSE {"C08.Bisimilar game=" \o v})
                    ELSE {})
-             \cup (IF Want \in {"C11", "both"} THEN ShapeClauses(g, v, S.raw[step], S.outcomes[step]) ELSE {})
+             \cup (IF Want \in {"C11", "both"}
+                   THEN (IF ~S.raw[step].valid \/ ~WellFormed(g)
+                         THEN {"C11.WellFormed game=" \o v \o " " \o S.raw[step].err}
+                         ELSE ShapeClauses(g, v, S.raw[step], S.outcomes[step]))
+                   ELSE {})
     /\ step' = step + 1 /\ UNCHANGED tid
 
 Verdict ==
